@@ -110,6 +110,71 @@ def check_operator(ctx, name, A, rng, comp=None, variant=None):
         ctx.violation(comp, cfgv, 'raises:' + type(e).__name__, name=name, message=str(e)[:300])
 
 
+def wrapper_rules(ctx, name, A, rng):
+    """The arithmetic wrappers' adjoints follow the algebraic rules *relative to the adjoint the leaf offers*:
+    (sA)* = conj(s) A*, (As)* = conj(s) A*, (A+A)* = 2A*, (-A)* = -A*, (vA)* = A*(conj(v) .), (Aw)* = conj(w) A*(.),
+    (BA)* = A* B*.  Independent of whether the leaf's own adjoint is exact, so listed leaf findings do not propagate."""
+    comp0, variant, _tag = split_name(name)
+    if not A.is_linear or util.is_field(A.range) or util.is_field(A.domain):
+        return
+    try:
+        At = A.adjoint
+    except Exception:
+        return
+    if util.real_dim(A.domain) > 200 or util.real_dim(A.range) > 200:
+        return
+    cplx = (getattr(A.range, 'field', None) == odl.ComplexNumbers()) and (getattr(A.domain, 'field', None) == odl.ComplexNumbers())
+    s = (1.5 - 0.5j) if cplx else -2.5
+    rc = getattr(A.range, 'field', None) == odl.ComplexNumbers()
+    dc = getattr(A.domain, 'field', None) == odl.ComplexNumbers()
+    try:
+        v = util.rand_element(A.range, rng)
+        w = util.rand_element(A.domain, rng)
+    except Exception:
+        return
+    rules = [('s*', lambda: s * A, lambda y: np.conj(s) * At(y)),
+             ('*s', lambda: A * s, lambda y: np.conj(s) * At(y)),
+             ('+op', lambda: A + A, lambda y: 2 * At(y)),
+             ('neg', lambda: -A, lambda y: -1 * At(y)),
+             ('v*', lambda: v * A, lambda y: At(v.conj() * y if rc else v * y)),
+             ('*w', lambda: A * w, lambda y: (w.conj() if dc else w) * At(y)),
+             ('Bo', lambda: odl.MultiplyOperator(v, domain=A.range, range=A.range) * A,
+              lambda y: At(odl.MultiplyOperator(v, domain=A.range, range=A.range).adjoint(y))),
+             ('oB', lambda: A * odl.MultiplyOperator(w, domain=A.domain, range=A.domain),
+              lambda y: odl.MultiplyOperator(w, domain=A.domain, range=A.domain).adjoint(At(y))),
+             ('s*(+op)*s', lambda: (s * (A + A)) * s, lambda y: np.conj(s) * np.conj(s) * 2 * At(y))]
+    for tag, mk, rule in rules:
+        try:
+            W = mk()
+        except Exception:
+            continue    # the wrapper is not offered for this leaf (checked by C04)
+        ctx.ev('wrapper-adjoint-rule')
+        ctx.case('wrapper-rule;%s;%s' % (comp0, tag), name)
+        cfg = '%s;%s' % ('complex' if cplx else 'real', adjoint.weights_relation(A.domain, A.range))
+        try:
+            Wt = W.adjoint
+        except (odl.OpNotImplementedError, NotImplementedError):
+            ctx.skip('wrapper offers no adjoint')
+            continue
+        except Exception as e:
+            ctx.violation('wrapper:' + tag, cfg, 'adjoint-raises:' + type(e).__name__, name=name, message=str(e)[:200])
+            continue
+        try:
+            if Wt.domain != A.range or Wt.range != A.domain:
+                ctx.violation('wrapper:' + tag, cfg, 'adjoint-domain/range', name=name)
+                continue
+            for _ in range(2):
+                y = util.rand_element(A.range, rng)
+                got = util.to_cvec(A.domain, Wt(y))
+                ref = util.to_cvec(A.domain, rule(y))
+                if not np.allclose(got, ref, rtol=1e-10, atol=1e-10 * max(1.0, float(np.abs(ref).max()) if ref.size else 1.0)):
+                    ctx.violation('wrapper:' + tag, cfg, 'adjoint!=rule-applied-to-leaf-adjoint', name=name,
+                                  maxdiff=float(np.abs(got - ref).max()))
+                    break
+        except Exception as e:
+            ctx.violation('wrapper:' + tag, cfg, 'raises:' + type(e).__name__, name=name, message=str(e)[:200])
+
+
 def run_registry(ctx):
     rng = ctx.rng('registry')
     crng = ctx.crng('registry-ctor')
@@ -128,6 +193,7 @@ def run_registry(ctx):
         if i % 61 == 0:
             ctx.sample({'operator': name, 'domain': util.srepr(A.domain, 80), 'range': util.srepr(A.range, 80)})
         check_operator(ctx, name, A, rng)
+        wrapper_rules(ctx, name, A, rng)
 
 
 def run_trees(ctx):
